@@ -54,7 +54,9 @@ def handbuilt():
     mods.append(('hand-atomics-flag2', m.encode()))
     # a module whose name section matters under -g: two NON-exported functions with debug names (only those get a debug symbol)
     m = Module()
-    fa = m.add_func('i', 'i', (), local_get(0) + i32_const(3) + op(0x6c))
+    # (locals of several types in an order in which regrouping matters: same-type neighbours after a split, an i32 group behind a non-i32 one)
+    fa = m.add_func('i', 'i', [(2, I64), (1, F32), (1, I32), (2, F64), (1, I32), (1, I64)],
+                    local_get(0) + local_set(4) + i64_const(7) + local_set(2) + local_get(4) + i32_const(3) + op(0x6c) + local_set(7) + local_get(7))
     fb = m.add_func('i', 'i', (), local_get(0) + i32_const(1) + op(0x6a))
     m.add_func('i', 'i', (), local_get(0) + call(fa) + call(fb), export='run')
     m.names = {fa: 'alpha', fb: 'beta', 2: 'run'}
